@@ -98,6 +98,11 @@ SysBig == { [c |-> "sysbig", v |-> v, with |-> w] :
                       "8589934594", "9223372036854775807", "-1", "-4294967295" },
               w \in { "none", "before", "after" } }
 
+\* every syscall from 0 up to a bound, one by one: up to 2031 this is the bit pattern of "all", below and above it is not
+SysPrefix == { [c |-> "sysprefix", top |-> n, list |-> l] : n \in { 30, 31, 32, 2014, 2015, 2016, 2030, 2031, 2032, 2046, 2047 }, l \in { "exit", "task" } }
+\* keys that are empty words: alone, twice, next to a real key (e = empty, a = a word)
+EmptyKey == { [c |-> "emptykey", kind |-> k, keys |-> ks] : k \in { "watch", "syscall" }, ks \in { "e", "ee", "ae", "ea", "eae" } }
+
 \* C13: every header word of a valid rule replaced by boundary values; truncations
 HeaderWords == 1..260
 Boundary == { "0", "1", "63", "64", "65", "255", "65536", "2147483647", "2147483648", "4294967294", "4294967295" }
@@ -111,8 +116,8 @@ FlagCases == { [c |-> "flags", order |-> s] : s \in Seqs(FlagLetters, 4) }
 Flags == FlagCases
 
 All == (IF "fop" \in Family THEN Fop ELSE {}) \cup (IF "shape" \in Family THEN Shape ELSE {})
-       \cup (IF "cmp" \in Family THEN Cmp ELSE {}) \cup (IF "watch" \in Family THEN Watch \cup WLike ELSE {})
-       \cup (IF "nfields" \in Family THEN NFields ELSE {}) \cup (IF "sysnum" \in Family THEN SysNum \cup SysBig \cup ArchNum ELSE {})
+       \cup (IF "cmp" \in Family THEN Cmp ELSE {}) \cup (IF "watch" \in Family THEN Watch \cup WLike \cup EmptyKey ELSE {})
+       \cup (IF "nfields" \in Family THEN NFields ELSE {}) \cup (IF "sysnum" \in Family THEN SysNum \cup SysBig \cup ArchNum \cup SysPrefix ELSE {})
        \cup (IF "decode" \in Family THEN Decode ELSE {}) \cup (IF "flags" \in Family THEN Flags ELSE {})
 
 Init == c \in All
